@@ -164,6 +164,7 @@ structure Stack where
   watched : List (Service × List Listener) := []
   watchAll : List LId := []
   found : TStore SvcKey := []
+  storeLog : List (Bool × SvcKey × Addr) := []   -- ghost: every store-level notification (true = offered) in order
   findTask : Option Nat := none
   -- ServiceSubscriber
   alive : Bool := false
@@ -549,6 +550,7 @@ def listenerStopped (s : Stack) (l : Listener) (k : SvcKey) (a : Addr) : Stack :
 
 /-- `_notify_service_offered` / `_notify_service_stopped` -/
 def notifyService (s : Stack) (offered : Bool) (k : SvcKey) (a : Addr) : Stack :=
+  let s := { s with storeLog := s.storeLog ++ [(offered, k, a)] }
   let f := fun (s : Stack) (l : Listener) => if offered then s.listenerOffered l k a else s.listenerStopped l k a
   let s := s.watched.foldl (fun s p => if p.1.matchesService k.toService then p.2.foldl f s else s) s
   s.watchAll.foldl (fun s id => f s (.ext id)) s
